@@ -63,6 +63,11 @@ def step (cx : Bool) (line : String) : String :=
       | .ok frags => s!"ok {(frags.headD []).length} " ++ " ".intercalate (frags.map toHex)
       | .error e => showFail e
     | _, _, _ => "bad-op"
+  | ["enclen", be, k, m, hd, len] =>
+    -- only the size guard of encode is evaluated (the input itself is not transmitted)
+    match cfg? cx be k m hd "1", len.toNat? with
+    | some (inst, _), some l => if encodeTooLarge inst l then showFail (.rc (-EINVALIDPARAMS)) else "ok-size"
+    | _, _ => "bad-op"
   | "dec" :: be :: k :: m :: hd :: ct :: force :: fraglen :: n :: frags =>
     match cfg? cx be k m hd ct, force.toNat?, fraglen.toNat?, n.toNat?, hexList frags with
     | some (inst, bk), some fo, some fl, some n, some fr =>
@@ -266,12 +271,43 @@ def stepFault (be op n : String) : String :=
       (if be == 4 || be == 7 then " lib=unloaded" else "")
   | _, _, _ => "bad-op"
 
+/-- natural failures (C17): create (unsupported shapes fail in the backend's own init), encode of the
+    fixed 97-byte buffer, decode and reconstruct without the fragments in `mask` (beyond tolerance the
+    backend itself fails).  Result: return code / verdict of each step; the library holds nothing
+    after a failed call and nothing at the end. -/
+def natData : Bytes := (List.range 97).map fun i => UInt8.ofNat (i * 7 + 1)
+
+def stepNatfail (cx : Bool) (be k m hd mask : String) : String :=
+  match be.toNat?, k.toInt?, m.toInt?, hd.toInt?, mask.toNat? with
+  | some be, some k, some m, some hd, some mask =>
+    match create (availDefault cx) be k m 0 hd 2 with
+    | .error e => s!"c={e} held=0 end=0"
+    | .ok _ =>
+      match mkInst cx be k.toNat m.toNat hd.toNat 2 with
+      | none => "bad-op"
+      | some (inst, bk) =>
+        match encode (env false) bk inst natData with
+        | .error e => s!"c=0 e={showFail e} held=0 end=0"
+        | .ok frags =>
+          let fl := (frags.headD []).length
+          let surv := (frags.zipIdx.filter fun (_, i) => !mask.testBit i).map (·.1)
+          let dest : Int := ((List.range (k.toNat + m.toNat)).find? fun i => mask.testBit i).getD 0
+          let d := match decode (env false) bk inst surv fl false with
+            | .ok out => if out == natData then "0" else "1"
+            | .error e => showFail e
+          let r := match reconstruct (env false) bk inst surv fl dest with
+            | .ok f => if f == frags.getD dest.toNat [] then "0" else "1"
+            | .error e => showFail e
+          s!"c=0 d={d} r={r} held=0 end=0"
+  | _, _, _, _, _ => "bad-op"
+
 def stepAll (cx : Bool) (line : String) : String :=
   match line.trimAscii.toString.splitOn " " with
   | ["ledger", be, k, m, hd, calls, pat] => stepLedger be k m hd calls pat
   | ["fault", be, _, _, _, op, n] => stepFault be op n
-  | ["pure", _] => "same"
+  | "pure" :: _ => "same"
   | "conc" :: _ => "ok"
+  | ["natfail", be, k, m, hd, mask] => stepNatfail cx be k m hd mask
   | "args" :: api :: be :: k :: m :: rest => stepArgs cx api be k m rest
   | ["hist", preset, ops] => stepHist cx preset ops
   | _ => step cx line
